@@ -1,12 +1,12 @@
 SPECIFICATION Spec
 CONSTANTS
-  MaxNodes = 3
+  MaxNodes = 2
   MaxDepth = 3
-  OvMode = "small"
-  SrcMode = "none"
-  MaxStack = 0
-  StackNodes = 0
-  Shape = "any"
+  OvMode = "min"
+  SrcMode = "some"
+  MaxStack = 3
+  StackNodes = 1
+  Shape = "chain"
   Dump = TRUE
 INVARIANT WellFormed
 INVARIANT Unambiguous
